@@ -162,21 +162,51 @@ Definition deserialize_file (recorded : pyval) : res (pyval * list N) :=
 Definition prepare_input := intercept_file.
 Definition prepare_output := intercept_file.
 
+(** ---- the file system the replay writes into ----
+    A state maps paths to contents; a path that is absent does not exist.  The replay may find ANY
+    state: in particular the path of the replayed call may already hold a file (longer, shorter, of the
+    same size - e.g. what an earlier replay restored there). *)
+Definition fstate := list (str * list N).
+Definition fs_get (p : str) (fs : fstate) : option (list N) := assoc p fs.
+Fixpoint fs_set (p : str) (c : list N) (fs : fstate) : fstate :=
+  match fs with
+  | [] => [(p, c)]
+  | (q, d) :: r => if str_eqb p q then (p, c) :: r else (q, d) :: fs_set p c r
+  end.
+
+(** POSIX [write] of [new] at offset 0 of a file holding [old]: bytes beyond the written range stay *)
+Definition write_at0 (old new : list N) : list N := new ++ skipn (length new) old.
+
+(** [open(p, "wb")]: O_WRONLY|O_CREAT|O_TRUNC - the file exists and is EMPTY afterwards *)
+Definition open_wb (p : str) (fs : fstate) : fstate := fs_set p [] fs.
+(** [f.write(b)] on the freshly opened file (position 0), then close *)
+Definition write_file (p : str) (b : list N) (fs : fstate) : fstate :=
+  fs_set p (write_at0 (match fs_get p fs with Some old => old | None => [] end) b) fs.
+
 (** input_file_interception.py:25-42.  The path comes from the arguments of the call being replayed
-    (:37); the file is opened (created / truncated) before the recorded data is decoded (:38-39).
-    Second component: the files written, as (path, final content). *)
+    (:37); the file is opened - created or TRUNCATED - before the recorded data is decoded (:38-39), then
+    the content is written (:40).  Second component: the file system after the call. *)
 Definition restore_input (h : handler) (writable : str -> bool) (recorded : pyval)
-           (args : list arg) (kwargs : list (str * arg)) : res str * list (str * list N) :=
+           (args : list arg) (kwargs : list (str * arg)) (fs : fstate) : res str * fstate :=
   match get_path h args kwargs with                            (* :37 *)
-  | Raises e => (Raises e, [])
+  | Raises e => (Raises e, fs)
   | Ans (AStr p) =>
       if writable p then                                       (* :38 open(file_path, "wb") *)
+        let fs1 := open_wb p fs in
         match deserialize_file recorded with                   (* :39 *)
-        | Ans (_, content) => (Ans p, [(p, content)])          (* :40, :42 *)
-        | Raises e => (Raises e, [(p, [])])
+        | Ans (_, content) => (Ans p, write_file p content fs1)    (* :40, :42 *)
+        | Raises e => (Raises e, fs1)
         end
-      else (Raises OSError, [])
-  | Ans _ => (Raises TypeError, [])
+      else (Raises OSError, fs)
+  | Ans _ => (Raises TypeError, fs)
+  end.
+
+(** replaying several recordings one after another with the same call (same working path) *)
+Fixpoint restore_all (h : handler) (writable : str -> bool) (recs : list pyval)
+         (args : list arg) (kwargs : list (str * arg)) (fs : fstate) : fstate :=
+  match recs with
+  | [] => fs
+  | r :: rs => restore_all h writable rs args kwargs (snd (restore_input h writable r args kwargs fs))
   end.
 
 (** output_file_interception.py:36-56 *)
@@ -216,18 +246,19 @@ Arguments StoreFailed {A}.
 Arguments Replayed {A} a.
 
 (** record an input with the file handler, save, fetch, replay the call with (possibly different)
-    arguments: outcome of the replayed call, files written, and the read-open journal of the recording *)
+    arguments on a file system in state [fs_play]: outcome of the replayed call, file system afterwards,
+    and the read-open journal of the recording *)
 Definition input_trip (h : handler) (fsize : str -> res Z) (fread : str -> res (list N))
            (writable : str -> bool) (qp : list N -> str) (qp_dec : str -> list N)
            (args_rec : list arg) (kw_rec : list (str * arg))
-           (args_play : list arg) (kw_play : list (str * arg))
-  : trip (res str * list (str * list N)) * list str :=
+           (args_play : list arg) (kw_play : list (str * arg)) (fs_play : fstate)
+  : trip (res str * fstate) * list str :=
   match intercept_file h fsize fread args_rec kw_rec with
   | (Raises e, opened) => (Discarded e, opened)
   | (Ans v, opened) =>
       match cassette_trip qp qp_dec v with
       | None => (StoreFailed, opened)
-      | Some v' => (Replayed (restore_input h writable v' args_play kw_play), opened)
+      | Some v' => (Replayed (restore_input h writable v' args_play kw_play fs_play), opened)
       end
   end.
 
